@@ -16,3 +16,23 @@ def register(check, na):
     check("C09", "other",
           "Path-set shape of try_unique, TryFrom, try_unwrap, into_inner, unwrap_or_clone: sole-owner path moves the payload field out with no destructor call and frees the block once as typed sole owner; decline path has zero events and returns the parameter itself (unwrap_or_clone: one clone then one release). The race clause reduces to C02/C03.",
           TB, "MIR path-set shape, move/def-use rules on the unwrap family", "DESIGN.md 4/C09")
+
+
+def _more(check, na):
+    check("C02", "other",
+          "Premises of the release/acquire reference-counting lemma checked on all atomic sites: decrement Release-or-stronger; acquire load/fence on the count word between the decrement that observed 1 and the free; the free is guarded by `value returned by the decrement == 1`; no non-atomic or store/swap/CAS access to the count field after initialisation; nothing touched after the free; all handle kinds funnel through Arc's single increment and decrement. The memory model is the trusted lemma; no schedule is explored.",
+          TB + " The C++11/Rust release-acquire counting lemma.", "ordering-discipline and def-use rules over MIR atomic call sites", "DESIGN.md 4/C02")
+    check("C03", "other",
+          "Every producer of exclusive access (payload `&mut` through a handle, `&mut Arc`->`&mut UniqueArc` cast, UniqueArc construction; unsafe constructors at their call sites) is, on every CFG path from entry, behind the true edge of the `Acquire load(count) == 1` gate on the same handle, behind an assignment of a fresh handle, or typed sole owner; decline paths are event-free and return the same value; deprecated writers go through the panicking check.",
+          TB + " Release/acquire lemma; C04 (count = owners). One frozen exemption listed in the evidence.", "gate-dominance (cut-set reachability) over MIR + role inference of the gate", "DESIGN.md 4/C03")
+    check("C16", "other",
+          "One increment site adding the constant 1; the value it returns is compared with a rustc-evaluated constant equal to isize::MAX (> or equivalent >=); every path through the tripped edge neither returns nor unwinds; the handle is built only behind the other edge; the abort callee is std::process::abort (std) or a local routine whose computed summary has no returning and no unwinding path (no_std); six clone entry points increment exactly once. Both std and no_std configurations.",
+          TB + " Panic-while-panicking aborts.", "guard-after-increment dataflow, divergence summaries, const evaluation by rustc", "DESIGN.md 4/C16")
+
+
+_reg0 = register
+
+
+def register(check, na):  # noqa: F811
+    _reg0(check, na)
+    _more(check, na)
